@@ -16,6 +16,9 @@ pub enum FaultKind {
     Error,
     /// the sink panics in this write (the caller catches it and carries on)
     Panic,
+    /// the sink rejects exactly this write (`fmt::Error`) and accepts later ones: a
+    /// bounded all-or-nothing buffer for which this chunk was too large
+    Reject,
 }
 
 #[derive(Clone, Debug, PartialEq, Eq, Hash, Serialize, Deserialize)]
@@ -211,7 +214,7 @@ fn generate_full(seed: u64, lite: bool) -> Plan {
         for _ in 0..n_ops {
             let (what, spec) = gen_what(&mut r, &types, &mut pool);
             let fault = if swarm.sink_error && r.chance(1, 4) {
-                Some((r.below(5), FaultKind::Error))
+                Some((r.below(5), if r.chance(1, 3) { FaultKind::Reject } else { FaultKind::Error }))
             } else if swarm.sink_panic && r.chance(1, 5) {
                 Some((r.below(5), FaultKind::Panic))
             } else {
@@ -245,7 +248,7 @@ fn generate_full(seed: u64, lite: bool) -> Plan {
 // rate) on the same thread.
 
 pub const SYS_K: usize = 20;
-pub const SYS_VARIANTS: usize = 4;
+pub const SYS_VARIANTS: usize = 5;
 /// what the operation that meets the event displays: a value, the bare unit, a rate / a positive value
 pub const SYS_FIRST: usize = 3;
 
@@ -314,8 +317,8 @@ pub fn systematic(index: u64) -> Plan {
     let mut threads;
     let mut sched = vec![0u8; 1];
     match variant {
-        0 | 1 => {
-            first.fault = Some((k, if variant == 0 { FaultKind::Error } else { FaultKind::Panic }));
+        0 | 1 | 4 => {
+            first.fault = Some((k, [FaultKind::Error, FaultKind::Panic, FaultKind::Error, FaultKind::Error, FaultKind::Reject][variant]));
             threads = vec![vec![first]];
             threads[0].extend(probes);
         }
